@@ -37,9 +37,28 @@ func c10methods() []c10method {
 	return []c10method{
 		{"Clear", func(s tcell.Screen, i int) { s.Clear() }, true},
 		{"Fill", func(s tcell.Screen, i int) { s.Fill(rune('a'+i%26), st(i)) }, true},
-		{"SetCell", func(s tcell.Screen, i int) { s.SetCell(i%40, i%10, st(i), rune('A'+i%26)) }, true},
-		{"GetContent", func(s tcell.Screen, i int) { s.GetContent(i%40, i%10) }, true},
-		{"SetContent", func(s tcell.Screen, i int) { s.SetContent(i%40, i%10, rune('0'+i%10), nil, st(i)) }, true},
+		{"SetCell", func(s tcell.Screen, i int) {
+			if i%3 == 0 {
+				s.SetCell(i%4, i%2, st(i), 'e', rune(0x301+i%2), rune(0x323+i%2)) // combining marks, few cells
+			} else {
+				s.SetCell(i%40, i%10, st(i), rune('A'+i%26))
+			}
+		}, true},
+		{"GetContent", func(s tcell.Screen, i int) {
+			// the application looks at what it got back (a few cells hold combining marks)
+			if i%2 == 0 {
+				c10useResult(s.GetContent(i%4, i%2))
+			} else {
+				c10useResult(s.GetContent(i%40, i%10))
+			}
+		}, true},
+		{"SetContent", func(s tcell.Screen, i int) {
+			if i%3 == 0 {
+				s.SetContent(i%4, i%2, 'o', []rune{rune(0x308 + i%2), rune(0x331 + i%2)}, st(i))
+			} else {
+				s.SetContent(i%40, i%10, rune('0'+i%10), nil, st(i))
+			}
+		}, true},
 		{"SetStyle", func(s tcell.Screen, i int) { s.SetStyle(st(i)) }, true},
 		{"ShowCursor", func(s tcell.Screen, i int) { s.ShowCursor(i%40, i%10) }, true},
 		{"HideCursor", func(s tcell.Screen, i int) { s.HideCursor() }, true},
@@ -88,6 +107,19 @@ func c10methods() []c10method {
 	}
 }
 
+// c10useResult is the application using what GetContent returned, after the call.
+//
+//go:noinline
+func c10useResult(mainc rune, combc []rune, st tcell.Style, width int) {
+	sum := mainc + rune(width)
+	for _, c := range combc {
+		sum += c
+	}
+	c10sink.Store(int64(sum))
+}
+
+var c10sink atomic.Int64
+
 // c10draw wraps Show/Sync calls of the job under test (one job at a time per
 // worker process); the job installs a checker of the write log.
 var c10drawHook func(call func())
@@ -119,6 +151,7 @@ type c10job struct {
 	Methods []string `json:"methods"`
 	Sim     bool     `json:"sim"`
 	Iters   int      `json:"iters"`
+	Env     string   `json:"env,omitempty"` // NAME=value set for the job (the library reads it at Init/Resume)
 }
 
 type c10out struct {
@@ -133,6 +166,12 @@ type c10out struct {
 // c10runJob: the methods of the job run concurrently on one screen together
 // with the library's own goroutines kept busy (input, resize notifications).
 func c10runJob(j c10job) (out c10out) {
+	for _, v := range []string{"TCELL_TRUECOLOR", "COLORTERM", "TCELL_ALTSCREEN"} {
+		os.Unsetenv(v)
+	}
+	if k, v, ok := strings.Cut(j.Env, "="); ok {
+		os.Setenv(k, v)
+	}
 	out.Idx = j.Idx
 	ms := map[string]c10method{}
 	for _, m := range c10methods() {
@@ -400,16 +439,20 @@ func parseRaceLog(text string) []raceReport {
 		}
 		var entries []string
 		isT := false
-		// the racing access belongs to the first frame that is not the standard library:
-		// a report counts against tcell only when both accesses are tcell's
+		// a report counts against tcell when both racing accesses happen on behalf of tcell
+		// (a tcell frame on the stack: its own code, or a callback such as Tty.Read filling
+		// the buffer tcell handed it), or when one does and the other is the application
+		// using what a Screen method returned (c10useResult). A stack without any tcell
+		// frame otherwise is the harness racing with itself.
 		tcellAccesses := 0
 		for _, st := range stacks {
-			for _, f := range st {
+			for i, f := range st {
 				if strings.HasPrefix(f, "github.com/gdamore/tcell/v2.") {
 					tcellAccesses++
 					break
 				}
-				if strings.HasPrefix(f, "verif/") || strings.HasPrefix(f, "main.") {
+				if i < 3 && strings.HasPrefix(f, "verif/props.c10useResult") {
+					tcellAccesses++
 					break
 				}
 			}
@@ -459,6 +502,12 @@ func C10(r *core.Run) {
 			return
 		}
 		jobs = append(jobs, c10job{Idx: len(jobs), Methods: ms, Sim: sim, Iters: iters})
+		if life > 0 && !sim && len(ms) == 2 {
+			// Init and Resume read the environment: the lifecycle pairs also run under each setting
+			for _, env := range []string{"TCELL_TRUECOLOR=disable", "COLORTERM=truecolor", "TCELL_ALTSCREEN=disable"} {
+				jobs = append(jobs, c10job{Idx: len(jobs), Methods: ms, Sim: sim, Iters: iters, Env: env})
+			}
+		}
 	}
 	for i, a := range methods {
 		for k := i; k < len(methods); k++ {
